@@ -28,8 +28,10 @@ ASSUMPTIONS = [
     '(no constant fill of UNIQUE columns, only satisfiable CHECKs, FK '
     'columns are added nullable)',
 ]
-FLOORS = {'quick': {'nontrivial': 40, 'values_compared': 500},
-          'thorough': {'nontrivial': 400, 'values_compared': 5000}}
+FLOORS = {'quick': {'relation_adds_with_initial': 8, 
+                    'nontrivial': 40, 'values_compared': 500},
+          'thorough': {'relation_adds_with_initial': 40, 
+                       'nontrivial': 400, 'values_compared': 5000}}
 SIZES = {'quick': 1500, 'thorough': 10000}
 
 
